@@ -22,7 +22,9 @@ FATAL = {
     "C17": {"always": ("TextOnly",), "must_exercise": ("TextOnly", "TextOnlySame")},
     # C20: the niche and the representation invariants, plus C01-C03's predicates on every build configuration
     "C20": {"always": ("NicheFree", "PtrOK", "TextOK", "ResultOK", "Isolation", "StaticsOK", "RcOK", "BlocksOK", "NoResizeShared", "EndClean", "Abort"),
-            "shim": MEMSHIM, "must_exercise": ("InlineEdit",)},
+            "shim": MEMSHIM, "must_exercise": ("InlineEdit",),
+            # every conversion record (integers at every digit-count boundary, floats, bool, char, Display) on every build: same text in all of them
+            "conv": ("IntText", "IntStorage", "BoolText", "CharText", "StrText", "DispOK", "FloatOK")},
     # "the first operation that needs to write or grow moves the handle to its own storage with the correct contents":
     # text / outcome / capacity predicates count for calls whose target was a static handle
     "C10": {"always": ("StaticBorrow", "StaticPrefix", "StaticsOK"), "when_target": {"static": ("TextOK", "ResultOK", "CapOK", "Utf8OK")},
@@ -33,8 +35,8 @@ FATAL = {
     "C04": {},
     "C14": {"conv": ("IntText",)},
     "C15": {"conv": ("BoolText", "CharText", "StrText", "DispOK", "FloatOK"), "always": ("ResultOK.display", "TextOK.display")},
-    "C16": {"codec": ("utf8", "utf8_lossy", "utf16", "utf16_lossy", "memory"), "always": ("TextOK.decode", "ResultOK.decode", "Utf8OK")},
-    "C19": {"codec": ("de_*",), "conv": ("SerOK", "ArbOK")},
+    "C16": {"codec": ("utf8", "utf8_lossy", "utf16", "utf16_lossy", "memory", "abort"), "always": ("TextOK.decode", "ResultOK.decode", "Utf8OK")},
+    "C19": {"codec": ("de_*", "abort"), "conv": ("SerOK", "ArbOK")},
     "C18": {"always": ("CallbackPanicOK",), "when": {"cbpanic": ("RcOK", "BlocksOK", "EndClean", "TextOK", "Isolation", "Abort")},
             "shim": MEMSHIM, "shim_when": "cbpanic", "must_exercise": ("CallbackPanicOK",)},
 }
@@ -101,8 +103,8 @@ PROFILES = {
     "C17": {"quick": [PAIRS2, dq("mixed")], "thorough": [PAIRS2, SEED2, dt("mixed")]},
     "C18": {"quick": [SEED2, dq("callbacks")], "thorough": [SEED3, FAIL2, dt("callbacks")]},
     "C19": {"quick": [{"kind": "codec", "cfg": "MC_Codec_u8_q"}, CONV], "thorough": [{"kind": "codec", "cfg": "MC_Codec_u8_t"}, CONV]},
-    "C20": {"quick": [FINAL2, matrix([CORE3, SEED1, drive("q-mixed", 4, 100, "all", 4)])],
-            "thorough": [FINAL2, matrix([CORE3, SEED2, drive("t-mixed", 10, 200, "all", 8)])]},
+    "C20": {"quick": [FINAL2, matrix([CORE3, SEED1, drive("q-mixed", 4, 100, "all", 4), {"kind": "conv", "files": 2}])],
+            "thorough": [FINAL2, matrix([CORE3, SEED2, drive("t-mixed", 10, 200, "all", 8), CONV])]},
 }
 
 _SEQ_NOTE = ("Trusted: TLC, the Rust harness (shadow heap, observation code), the add-only hooks. Bounded: pool of 2-3 handles, depth and "
